@@ -302,6 +302,9 @@ def load_corpus():
 def run(res, args):
     rng = random.Random(res.seed)
     b = common.Build('asan')
+    with common.lean_lock():
+        _, changed = common.regenerate(b)       # Props/C20 ties the -l names to the regenerated main table
+    res.coverage['regenerated'] = changed
     ok, failing = common.proof_step(res, ['Wbxml.Props.C20'], 'Wbxml.Props.C20', extra_targets=['driver_tool'])
     hl = b.harness('tool_lib.c')
     exes = U.Exes(b)
